@@ -17,10 +17,11 @@ def ff (fixed : Bool) (cty : CTy := .ffItems) (mm : MMode := .notNone) : OptStep
 def oBool (n : Str) (mm : MMode := .notNone) : OptStep := { field := n, key := n, ty := .bool, mm := mm }
 def oInt (n : Str) (min : Option Int := none) (mm : MMode := .notNone) : OptStep :=
   { field := n, key := n, ty := .int min, mm := mm }
-/-- an integer option that is a WAMP id (session, subscription, registration) -/
-def oId (n : Str) : OptStep := { field := n, key := n, ty := .int none, idLike := true }
+/-- an integer option that is a WAMP id (session, subscription, registration): `check_or_raise_id` -/
+def oId (n : Str) : OptStep := { field := n, key := n, ty := .id }
 def oStr (n : Str) (mm : MMode := .notNone) : OptStep := { field := n, key := n, ty := .str, mm := mm }
-def oListInt (n : Str) : OptStep := { field := n, key := n, ty := .listInt, idLike := true }
+/-- a list of WAMP session ids: `check_or_raise_id` on every item -/
+def oListId (n : Str) : OptStep := { field := n, key := n, ty := .listId }
 def oListStr (n : Str) : OptStep := { field := n, key := n, ty := .listStr }
 
 def payloadCross : List Cross := [.payloadBytes, .encTypes, .encTriple]
@@ -36,7 +37,7 @@ def hello : Schema where
     oListStr cs!"authmethods", oStr cs!"authid", oStr cs!"authrole",
     { field := cs!"authextra", key := cs!"authextra", ty := .dict },
     oBool cs!"resumable",
-    { field := cs!"resume_session", key := cs!"resume-session", ty := .int none, idLike := true },
+    { field := cs!"resume_session", key := cs!"resume-session", ty := .id },
     { field := cs!"resume_token", key := cs!"resume-token", ty := .str, absentErrIf := some cs!"resume-session" } ]
 
 def welcome : Schema where
@@ -44,12 +45,12 @@ def welcome : Schema where
   code := code_Welcome
   pos := [.id cs!"session", .opts]
   opts := [
-    { field := cs!"realm", key := cs!"realm", ty := .unchecked, cty := .strOrNone, mm := .truthy },
-    { field := cs!"authid", key := cs!"authid", ty := .unchecked, cty := .strOrNone, mm := .truthy },
-    { field := cs!"authrole", key := cs!"authrole", ty := .unchecked, cty := .strOrNone, mm := .truthy },
-    { field := cs!"authmethod", key := cs!"authmethod", ty := .unchecked, cty := .strOrNone, mm := .ifTruthy cs!"authrole" },
-    { field := cs!"authprovider", key := cs!"authprovider", ty := .unchecked, cty := .strOrNone, mm := .truthy },
-    { field := cs!"authextra", key := cs!"authextra", ty := .unchecked, cty := .dictOrNone, mm := .truthy },
+    { field := cs!"realm", key := cs!"realm", ty := .strOrNull, cty := .strOrNone, mm := .truthy },
+    { field := cs!"authid", key := cs!"authid", ty := .strOrNull, cty := .strOrNone, mm := .truthy },
+    { field := cs!"authrole", key := cs!"authrole", ty := .strOrNull, cty := .strOrNone, mm := .truthy },
+    { field := cs!"authmethod", key := cs!"authmethod", ty := .strOrNull, cty := .strOrNone, mm := .truthy },
+    { field := cs!"authprovider", key := cs!"authprovider", ty := .strOrNull, cty := .strOrNone, mm := .truthy },
+    { field := cs!"authextra", key := cs!"authextra", ty := .dictOrNull, cty := .dictOrNone, mm := .truthy },
     oBool cs!"resumed" .truthy,
     oBool cs!"resumable" .truthy,
     { field := cs!"resume_token", key := cs!"resume_token", ty := .str, mm := .truthy, absentErrIf := some cs!"resumable" },
@@ -82,7 +83,7 @@ def error : Schema where
   name := cs!"Error"
   code := code_Error
   pos := [.intEnum cs!"request_type" errorRequestTypes, .id cs!"request", .opts, .uri cs!"error" {}]
-  tail := some { payloadStrOk := false, variant := .std }
+  tail := some { variant := .std }
   opts := [oId cs!"callee", oStr cs!"callee_authid", oStr cs!"callee_authrole", ff ffFixed_Error]
   cross := payloadCross
 
@@ -90,9 +91,9 @@ def publish : Schema where
   name := cs!"Publish"
   code := code_Publish
   pos := [.id cs!"request", .opts, .uri cs!"topic" {}]
-  tail := some { payloadStrOk := true, variant := .publish }
-  opts := [oBool cs!"acknowledge", oBool cs!"exclude_me", oListInt cs!"exclude", oListStr cs!"exclude_authid",
-           oListStr cs!"exclude_authrole", oListInt cs!"eligible", oListStr cs!"eligible_authid",
+  tail := some { variant := .publish }
+  opts := [oBool cs!"acknowledge", oBool cs!"exclude_me", oListId cs!"exclude", oListStr cs!"exclude_authid",
+           oListStr cs!"exclude_authrole", oListId cs!"eligible", oListStr cs!"eligible_authid",
            oListStr cs!"eligible_authrole", oBool cs!"retain", oStr cs!"transaction_hash", ff ffFixed_Publish]
   cross := payloadCross
 
@@ -128,12 +129,13 @@ def unsubscribed : Schema where
   optsOptional := true
   opts := [oId cs!"subscription", { field := cs!"reason", key := cs!"reason", ty := .uri {} }]
   cross := [.zeroExcl cs!"request" cs!"subscription"]
+  pcross := [.zeroExcl cs!"request" cs!"subscription"]
 
 def event : Schema where
   name := cs!"Event"
   code := code_Event
   pos := [.id cs!"subscription", .id cs!"publication", .opts]
-  tail := some { payloadStrOk := false, variant := .std }
+  tail := some { variant := .std }
   opts := [oId cs!"publisher", oStr cs!"publisher_authid", oStr cs!"publisher_authrole", oStr cs!"topic",
            oBool cs!"retained", oStr cs!"transaction_hash", oBool cs!"x_acknowledged_delivery", ff ffFixed_Event]
   cross := payloadCross
@@ -147,7 +149,7 @@ def call : Schema where
   name := cs!"Call"
   code := code_Call
   pos := [.id cs!"request", .opts, .uri cs!"procedure" {}]
-  tail := some { payloadStrOk := true, variant := .std }
+  tail := some { variant := .std }
   opts := [oInt cs!"timeout" (some 0), oBool cs!"receive_progress", oStr cs!"transaction_hash", oId cs!"caller",
            oStr cs!"caller_authid", oStr cs!"caller_authrole", ff ffFixed_Call]
   cross := payloadCross
@@ -163,7 +165,7 @@ def result : Schema where
   name := cs!"Result"
   code := code_Result
   pos := [.id cs!"request", .opts]
-  tail := some { payloadStrOk := true, variant := .std }
+  tail := some { variant := .std }
   opts := [oBool cs!"progress", oId cs!"callee", oStr cs!"callee_authid", oStr cs!"callee_authrole", ff ffFixed_Result]
   cross := payloadCross
 
@@ -177,7 +179,7 @@ def register : Schema where
              ty := .strEnum [cs!"single", cs!"first", cs!"last", cs!"roundrobin", cs!"random"],
              dflt := .str cs!"single", mm := .neqDefault cs!"single" },
            oInt cs!"concurrency" (some 1) .truthy,
-           { field := cs!"force_reregister", key := cs!"force_reregister", ty := .boolLoose },
+           { field := cs!"force_reregister", key := cs!"force_reregister", ty := .boolOrNull },
            ff ffFixed_Register]
 
 def registered : Schema where
@@ -200,12 +202,13 @@ def unregistered : Schema where
   optsOptional := true
   opts := [oId cs!"registration", { field := cs!"reason", key := cs!"reason", ty := .uri {} }]
   cross := [.zeroExcl cs!"request" cs!"registration"]
+  pcross := [.zeroExcl cs!"request" cs!"registration"]
 
 def invocation : Schema where
   name := cs!"Invocation"
   code := code_Invocation
   pos := [.id cs!"request", .id cs!"registration", .opts]
-  tail := some { payloadStrOk := false, variant := .std }
+  tail := some { variant := .std }
   opts := [oInt cs!"timeout" (some 0), oBool cs!"receive_progress", oId cs!"caller", oStr cs!"caller_authid",
            oStr cs!"caller_authrole", oStr cs!"procedure", oStr cs!"transaction_hash", ff ffFixed_Invocation]
   cross := payloadCross
@@ -222,7 +225,7 @@ def yield : Schema where
   name := cs!"Yield"
   code := code_Yield
   pos := [.id cs!"request", .opts]
-  tail := some { payloadStrOk := false, variant := .std }
+  tail := some { variant := .std }
   opts := [oBool cs!"progress", oId cs!"callee", oStr cs!"callee_authid", oStr cs!"callee_authrole", ff ffFixed_Yield]
   cross := payloadCross
 
